@@ -11,6 +11,13 @@ Definition c10_violations (fx : fixes) (p : program) : list N :=
 Definition c11_getter_violation (fx : fixes) (p : program) : bool :=
   p_getter p && prog_can_fall_off p && negb (getter_body_continues (analyze fx p) p).
 
+(* ... the same for every getter of the program, nested ones included (only the program's own getter is
+   covered by the theorems; the nested ones are checked on every generated program) *)
+Definition c11_getter_violations_all (fx : fixes) (p : program) : list N :=
+  let i := analyze fx p in
+  flat_map (fun g => if cN (csem_l (snd g)) && negb (getter_entry_continues i (snd (fst g))) then [fst (fst g)] else [])
+           (all_getters p).
+
 (* C11 (switch): cases of an entered switch whose consequent can complete normally although
    one of its top-level statements is claimed to stop execution *)
 Fixpoint bad_cases (i : imap) (cs : cases) : list N :=
@@ -39,6 +46,10 @@ Fixpoint sem_fall_cases (cs : cases) : list N :=
   | CCons cp _ ft b r =>
       (if cN (csem_l b) && negb (case_empty b) && negb ft then [cp] else []) ++ sem_fall_cases r
   end.
+(* getters (start offsets) whose body can complete normally: getter-return has to report these *)
+Definition sem_falling_getters (p : program) : list N :=
+  flat_map (fun g => if cN (csem_l (snd g)) then [fst (fst g)] else []) (all_getters p).
+
 Definition sem_fallthrough_cases (p : program) : list N :=
   let reach := prog_reach p in
   flat_map (fun pc => if memN (fst pc) reach then sem_fall_cases (snd pc) else [])
